@@ -53,7 +53,7 @@ type c16Params struct {
 	SlowGateway bool `json:"slow_gateway,omitempty"`
 }
 
-var c16Keys = []string{"region", "Region", "zone", "az", "team", "Team", "env", "build_id", "a", "b", "A", "z9", "_x", "cluster", "Cluster", "k8s_ns"}
+var c16Keys = []string{"region", "Region", "zone", "az", "team", "Team", "env", "build_id", "a", "b", "A", "z9", "_x", "cluster", "Cluster", "k8s_ns", "Stage", "RESULT", "Test", "Result"}
 var c16Vals = []string{"", " lead", "trail ", " ", "\ttab\t", "a", "b", "z", "eu-west-1", "us", "ünïcödé ✓", "with space", "\"quoted\"", "line\nbreak", "prod", "zzz", "AAA", "0", "{}", "a=b,c=d"}
 var c16Names = []string{"verifScenario", "alpha", "beta", "scénario ü", "with space", "a/b:c", "x", "Alpha"}
 
